@@ -21,13 +21,18 @@ def correspondence(ctx):
     quick = ctx.tier == 'quick'
     seed = ctx.rng.randrange(1, 10 ** 5)
     nb = len(mod.boundary_cases())
-    cs = mod.cases(seed, nb + (9 if quick else 200))
+    cs = common.safe_cases(ctx, NAME, lambda: mod.cases(seed, nb + (9 if quick else 200)))
+    if cs is None:
+        return
     if quick:
         cs = ctx.rng.sample(cs[:nb], 12) + cs[nb:]
     texts = []
     for c in cs:
         ctx.case(('parse', c[0].split('_')[0], len(c[1]) // 10), True)
-        texts.append(mod.render(c))
+        t = common.safe_render(ctx, NAME, mod.render, c)
+        if t is None:
+            continue
+        texts.append(t)
     ctx.count('parse:histories', len(cs))
     bad, err = common.coq_bad_cases('parse', ['From PV.Model Require Import Master Parse.'], [], 'ps_case', texts, 'bad_parse_cases 0',
                                     shard=3 if quick else 16, workers=8 if quick else 15, timeout=1500)
